@@ -8,6 +8,7 @@ From AV Require Import Model.D08.
 From AV Require Import Model.D13.
 From AV Require Import Model.D20.
 From AV Require Import Model.D05.
+From AV Require Import Model.D17.
 Import ListNotations.
 
 Definition dispatch (prop op : nat) (t : itree) : itree :=
@@ -23,5 +24,6 @@ Definition dispatch (prop op : nat) (t : itree) : itree :=
   | 13 => d13 op t
   | 20 => d20 op t
   | 5 => d05 op t
+  | 17 => d17 op t
   | _ => bad_input
   end.
